@@ -46,6 +46,8 @@ type Task struct {
 	wake   chan struct{}
 	skip   int
 	waitMu *sync.Mutex // parked in hook.Lock: eligible only while the mutex is free
+	waitRW *RWState    // parked in hook.RWMutex: eligible only while the lock can be taken
+	waitRd bool        // ... as a reader
 	nchild int
 	nyield int
 	Gnum   uint64   // runtime goroutine number (parsed from runtime.Stack): independent identity
@@ -330,6 +332,14 @@ func (s *Sched) Run(main func()) {
 						continue
 					}
 				}
+				if rw := t.waitRW; rw != nil {
+					// plain reads, invisible to the race detector in this norace function;
+					// every task is parked or durably blocked right now
+					if rw.Writer || (!t.waitRd && rw.Readers != 0) {
+						nwait++
+						continue
+					}
+				}
 				parked[np] = t
 				np++
 			}
@@ -525,4 +535,24 @@ func (s *Sched) LockWait(mu *sync.Mutex) {
 	t.waitMu = mu
 	s.park(t, SiteLock)
 	t.waitMu = nil
+}
+
+// RWState is the state of a readers/writer lock implemented by the hook package.
+type RWState struct {
+	Readers int
+	Writer  bool
+}
+
+// RWLockWait is LockWait for a readers/writer lock.
+//
+//go:norace
+func (s *Sched) RWLockWait(rw *RWState, reader bool) {
+	t := s.cur()
+	if t == nil {
+		return
+	}
+	t.nyield++
+	t.waitRW, t.waitRd = rw, reader
+	s.park(t, SiteLock)
+	t.waitRW = nil
 }
